@@ -21,6 +21,9 @@ def _match_spec(spec, val):
         if 'subset_of' in spec: return val is not None and set(val) <= set(spec['subset_of'])
         if 'superset_of' in spec: return val is not None and set(val) >= set(spec['superset_of'])
         if 'intersects' in spec: return val is not None and bool(set(val) & set(spec['intersects']))
+        if 'glob' in spec:
+            import fnmatch
+            return val is not None and fnmatch.fnmatchcase(str(val), spec['glob'])
         if 're' in spec: return val is not None and re.search(spec['re'], str(val)) is not None
         if 'nonempty_subset_of' in spec: return bool(val) and set(val) <= set(spec['nonempty_subset_of'])
         return False
@@ -103,6 +106,11 @@ class Ctx:
             if p in seen: continue
             seen.add(p)
             lines.append('VIOLATION property=%s replay=%s' % (self.prop, p)); rc = 1
+        for e in self.known:  # exclusions counted inside a harness are keyed by their tag/glob
+            t = (e.get('signature') or {}).get('tag')
+            t = t.get('glob') if isinstance(t, dict) else t
+            if t and ('tag:' + t) in r.known_hits:
+                r.known_hits[e['id']] = r.known_hits.get(e['id'], 0) + r.known_hits.pop('tag:' + t)
         for e in self.known:
             if e.get('status') == 'known' and r.known_hits.get(e['id'], 0) > 0:
                 lines.append('KNOWN-FINDING: property=%s %s [%s; matched %d case(s) this run]' % (self.prop, e['what'], e['id'], r.known_hits[e['id']]))
